@@ -442,6 +442,10 @@ SCHED_CASES = [
     {'writers': [[['WRTE', 1, 2, 'aaaa']], [['OKAY', 3, 4, 'bb']]], 'expire': [True, False]},
     {'writers': [[['WRTE', 1, 2, 'aaaa'], ['CLSE', 1, 2, 'c']], [['WRTE', 3, 4, 'bb'], ['WRTE', 3, 4, 'dd']]], 'expire': [True, True]},
     {'writers': [[['WRTE', 1, 2, 'aaaa']], [['OKAY', 3, 4, 'bb']], [['OPEN', 5, 0, 'x']]], 'expire': [False, False, False]},
+    # header-only messages (OKAY/CLSE carry no payload) racing with a payload-carrying writer
+    {'writers': [[['WRTE', 1, 2, 'aaaa']], [['OKAY', 3, 4, '']]], 'expire': [False, False]},
+    {'writers': [[['WRTE', 1, 2, 'aaaa'], ['OKAY', 1, 2, '']], [['CLSE', 3, 4, ''], ['WRTE', 3, 4, 'dd']]], 'expire': [True, False]},
+    {'writers': [[['OKAY', 1, 2, '']], [['WRTE', 3, 4, 'bbb']], [['CLSE', 5, 6, '']]], 'expire': [False, False, False]},
 ]
 
 
@@ -476,7 +480,7 @@ def plan(tier, seed):
   for i in range(4):
     jobs.append({'kind': 'conc', 'name': 'conc%d' % i, 'hseed': seed * 1000 + 200 + i, 'n': 40 if q else 800})
   for ci in range(len(SCHED_CASES)):
-    jobs.append({'kind': 'sched', 'name': 'sched%d' % ci, 'case': ci, 'bound': 2 if (not q or ci == 0) else 1})
+    jobs.append({'kind': 'sched', 'name': 'sched%d' % ci, 'case': ci, 'bound': 2 if (not q or ci in (0, 3)) else 1})
   return jobs
 
 
